@@ -307,8 +307,12 @@ def run(ctx):
             if mt and mt[1] == "Dewey":
                 d = unwrap_some(flds.get("dewey"))
                 ok = d is not None and bool(find_calls(d, DN)) and has_try(d) and strip_refs(call_args(find_calls(d, DN)[0])[0]) == ("param", 1)
-                brace = [c for c in p.conds() if is_call(c.term, "str>::contains") and const_char(call_args(c.term)[1]) in ("{", "}")]
-                ok = ok and len(brace) == 2 and all(c.fact == ("eq", False) for c in brace)
+                # ... and only when the pattern contains neither brace (contains('{') || contains('}'), or contains(['{', '}']), tested false)
+                absent = set()
+                for chs, truth in contains_facts(ctx, p):
+                    if not truth:
+                        absent |= set(chs)
+                ok = ok and {"{", "}"} <= absent
         ctx.check(ok, "D4-PATTERN-AGREES", "pattern::Pattern::new", "dewey-arm", "brace-free '<'/'>' patterns compile with Dewey::new(pattern)?",
                   "Pattern::new does not compile brace-free comparison patterns with Dewey::new(pattern)? (errors propagated)", fn_span(b))
     pm = ctx.paths("pattern::Pattern::matches")
